@@ -29,6 +29,7 @@ struct Ctx {
     // buffered state captured for a stream that is being erased in this call
     bool snap; long chunks, bytes; std::string bufjson[2];
     int ignore;      // 0 none, 1 client data, 2 server data (Stream::ignore_*_data called on every new stream)
+    int cleanup;     // which directions libtins clears after the data callback (bit 0 client, bit 1 server); the others the user clears
 };
 static Ctx* G = 0;
 
@@ -65,6 +66,8 @@ static void snapshot(Stream& s) {
 static void on_data(Stream& s, bool client_side) {
     int role; int ci = conn_of(s, role);
     Cb cb; cb.k = client_side ? "cdata" : "sdata"; cb.c = cname(ci); cb.b = client_side ? s.client_payload() : s.server_payload(); G->cbs.push_back(cb);
+    // a direction whose automatic clean-up the scenario switched off is cleared by the user - and only that direction
+    if (client_side ? (G->cleanup & 1) == 0 : (G->cleanup & 2) == 0) { if (client_side) s.client_payload().clear(); else s.server_payload().clear(); }
 }
 static void on_closed(Stream& s) { int role; int ci = conn_of(s, role); Cb cb; cb.k = "closed"; cb.c = cname(ci); G->cbs.push_back(cb); snapshot(s); }
 static void on_new(Stream& s) {
@@ -73,6 +76,7 @@ static void on_new(Stream& s) {
     s.client_data_callback([](Stream& x) { on_data(x, true); });
     s.server_data_callback([](Stream& x) { on_data(x, false); });
     s.stream_closed_callback([](Stream& x) { on_closed(x); });
+    s.auto_cleanup_client_data((G->cleanup & 1) != 0); s.auto_cleanup_server_data((G->cleanup & 2) != 0);      // bit 0: client, bit 1: server direction cleaned up by libtins
     if (G->ignore == 1) s.ignore_client_data(); else if (G->ignore == 2) s.ignore_server_data();      // the scenario's "ignore" setting
 }
 static void on_term(Stream& s, StreamFollower::TerminationReason r) {
@@ -122,6 +126,8 @@ static void scenario(const vh::Json& sc, vh::Out& out, vh::Rng& rng, const vh::A
     for (size_t i = 0; i < ctx.conns.size(); ++i) { ctx.conns[i].isn[0] = pick_isn(rng); ctx.conns[i].isn[1] = pick_isn(rng); }
     bool attach = sc["attach"].truth();
     const std::string ign = sc.has("ignore") ? sc["ignore"].str() : "none"; ctx.ignore = ign == "client" ? 1 : ign == "server" ? 2 : 0;
+    ctx.cleanup = (int)((out.sid / 3) % 4) == 0 ? 3 : (int)((out.sid / 3) % 4);      // 3 (the default) twice as often as 1 and 2; never 0 ... see below
+    if ((out.sid / 3) % 8 == 4) ctx.cleanup = 0;
     long KA = 10, maxChunks = 2, maxBytes = 6;
     out.begin("\"attach\":" + std::string(attach ? "true" : "false") + ",\"ignore\":\"" + ign + "\",\"keepAlive\":10,\"maxChunks\":2,\"maxBytes\":6,\"termcb\":" + std::string(out.sid % 5 == 3 ? "false" : "true") + ",\"mode\":" + std::to_string(mode % 10));
     StreamFollower fol;
